@@ -217,6 +217,155 @@ def gen_pattern(rng, ic):
     return Pat(nv, py, p.nullable, p.word, bol, nb)
 
 
+# ---------------------------------------------------------------------------------------------
+# the anchor stream: ^ and $ inside alternations and groups, and patterns whose TEXT starts with ^ but that are
+# not anchored as a whole (or are anchored and continue with a real regex construct).  ec_substitute searches the
+# rest of a line under RE_NOTBOL after its first replacement: only a ^ atom may notice that flag, every other
+# alternative must still be found.  Each pattern comes with sample texts its branches match, so that lines with
+# 0..4 matches (one of them at column 0 in half of the cases) can be planted.
+
+def p_lit(s, ic):
+    return Pat(''.join(('\\' + c) if c in META else c for c in s), ''.join(py_char(c, ic) for c in s), s == '')
+
+
+def p_cat(*ps):
+    return Pat(''.join(p.nv for p in ps), ''.join(p.py for p in ps), all(p.nullable for p in ps), any(p.word for p in ps),
+               any(p.bol for p in ps), ''.join(p.pynb for p in ps))
+
+
+def p_alt(*ps):
+    return Pat('|'.join(p.nv for p in ps), '|'.join(p.py for p in ps), any(p.nullable for p in ps), any(p.word for p in ps),
+               any(p.bol for p in ps), '|'.join(p.pynb for p in ps))
+
+
+def p_grp(p):
+    return Pat('(' + p.nv + ')', '(' + p.py + ')', p.nullable, p.word, p.bol, '(' + p.pynb + ')')
+
+
+EOL = lambda: Pat('$', '\\Z', True)
+
+
+def anchor_piece(rng, ic, simple=False):
+    """(Pat, texts it matches); simple = a plain literal only"""
+    t = rng.below(8 if simple else 20)
+    if t < 8:
+        s = rng.choice(['a', 'b', 'a', 'b', 'ab', 'ba', 'x', 'é', 'ü', '€', ' ', 'aé', '1'])
+        return p_lit(s, ic), [s]
+    cls = lambda: Pat('[ab]', '[abAB]' if ic else '[ab]', False)
+    if t == 8:
+        return Pat(' +', ' +', False), [' ', '  ', '   ']
+    if t == 9:
+        return Pat('a*', py_char('a', ic) + '*', True), ['', 'a', 'aa']
+    if t == 10:
+        return Pat('a+', py_char('a', ic) + '+', False), ['a', 'aaa']
+    if t == 11:
+        return cls(), ['a', 'b']
+    if t == 12:
+        c = cls()
+        return Pat(c.nv + '+', c.py + '+', False), ['ab', 'ba', 'b', 'aab']
+    if t == 13:
+        return Pat('.', '.', False), ['c', 'é', '€']
+    if t == 14:
+        return Pat('a*b', py_char('a', ic) + '*' + py_char('b', ic), False), ['b', 'ab', 'aab']
+    if t == 15:
+        return Pat('x?', py_char('x', ic) + '?', True), ['', 'x']
+    if t == 16:
+        return p_grp(p_lit('a', ic)), ['a']
+    if t == 17:
+        return Pat('é+', 'é+', False), ['é', 'éé']
+    if t == 18:
+        return Pat('[^ab ]', '[^abAB ]' if ic else '[^ab ]', False), ['c', 'é', '-']
+    return Pat('b{1,2}', py_char('b', ic) + '{1,2}', False), ['b', 'bb']
+
+
+ANCHOR_SHAPES = ['^A|B', 'B|^A', '(^A|B)', '(B|^A)', '^A|B$', 'A$|^B', '^ +| +$', '(^|C)A', '(A$|B)', '^A (regex)', '^A|B|C', 'C|^A|B',
+                 '^(A)|(B)', '^A|^B', '^A$|B', 'A|^', '^|A', '(^A)|B', 'C(^A|B)', '\\^A|B', '^A|B (literals)', '^(A|B)', 'A($|C)', '^A|B (literals)',
+                 '^A|B', 'B|^A', '^AB|B']
+
+
+def gen_anchor_pattern(rng, ic):
+    """returns (shape, Pat, sample texts, replacement tokens or None)"""
+    shape = rng.choice(ANCHOR_SHAPES)
+    lit = shape.endswith('(literals)')
+    A, sa = anchor_piece(rng, ic, lit)
+    B, sb = anchor_piece(rng, ic, lit)
+    C, sc = anchor_piece(rng, ic, True)
+    toks = None
+    smp = sa + sb
+    if shape in ('^A|B', '^A|B (literals)'):
+        p = p_alt(p_cat(BOL(), A), B)
+    elif shape == 'B|^A':
+        p = p_alt(B, p_cat(BOL(), A))
+    elif shape == '(^A|B)':
+        p = p_grp(p_alt(p_cat(BOL(), A), B))
+    elif shape == '(B|^A)':
+        p = p_grp(p_alt(B, p_cat(BOL(), A)))
+    elif shape == '^A|B$':
+        p = p_alt(p_cat(BOL(), A), p_cat(B, EOL()))
+    elif shape == 'A$|^B':
+        p = p_alt(p_cat(A, EOL()), p_cat(BOL(), B))
+    elif shape == '^ +| +$':
+        bl = Pat(' +', ' +', False)
+        p = p_alt(p_cat(BOL(), bl), p_cat(bl, EOL()))
+        smp = [' ', '  ', 'ab', 'cd', ' ']
+    elif shape == '(^|C)A':
+        p = p_cat(p_grp(p_alt(BOL(), C)), A)
+        smp = sa + [sc[0] + sa[-1]]
+    elif shape == '(A$|B)':
+        p = p_grp(p_alt(p_cat(A, EOL()), B))
+    elif shape == '^A (regex)':
+        A, sa = anchor_piece(rng, ic)
+        B, sb = anchor_piece(rng, ic)
+        p = p_cat(BOL(), A, B) if rng.chance(1, 2) else p_cat(BOL(), A)
+        smp = sa + [sa[-1] + sb[-1], sa[0] + sb[0]]
+    elif shape == '^A|B|C':
+        p = p_alt(p_cat(BOL(), A), B, C)
+        smp += sc
+    elif shape == 'C|^A|B':
+        p = p_alt(C, p_cat(BOL(), A), B)
+        smp += sc
+    elif shape == '^(A)|(B)':
+        p = p_alt(p_cat(BOL(), p_grp(A)), p_grp(B))
+        toks = [('[', 'lit', '['), ('\\1', 'grp', 1), ('\\2', 'grp', 2), (']', 'lit', ']')]
+    elif shape == '^A|^B':
+        p = p_alt(p_cat(BOL(), A), p_cat(BOL(), B))
+    elif shape == '^A$|B':
+        p = p_alt(p_cat(BOL(), A, EOL()), B)
+    elif shape == 'A|^':
+        p = p_alt(A, BOL())
+    elif shape == '^|A':
+        p = p_alt(BOL(), A)
+    elif shape == '(^A)|B':
+        p = p_alt(p_grp(p_cat(BOL(), A)), B)
+    elif shape == 'C(^A|B)':
+        p = p_cat(C, p_grp(p_alt(p_cat(BOL(), A), B)))
+        smp = [sc[0] + sb[-1], sc[0] + sa[-1]] + sa
+    elif shape == '\\^A|B':
+        p = p_alt(p_cat(p_lit('^', ic), A), B)
+        smp = ['^' + sa[-1]] + sb
+    elif shape == '^(A|B)':
+        p = p_cat(BOL(), p_grp(p_alt(A, B)))
+    elif shape == 'A($|C)':
+        p = p_cat(A, p_grp(p_alt(EOL(), C)))
+        smp = sa + [sa[-1] + sc[0]]
+    else:                                   # '^AB|B'
+        p = p_alt(p_cat(BOL(), A, B), B)
+        smp = [sa[-1] + sb[-1]] + sb
+    return shape, p, [s for s in smp], toks
+
+
+def gen_anchor_line(rng, smp):
+    fill = ['c', 'z', ' ', '-', '€', 'é', 'cz', ' c']
+    toks = []
+    for _ in range(rng.choice([0, 1, 2, 3, 3, 4, 5, 6, 8])):
+        toks.append(rng.choice(smp) if rng.chance(3, 5) else rng.choice(fill))
+    if toks and rng.chance(1, 2):
+        toks[0] = rng.choice(smp)           # a match at column 0
+    if toks and rng.chance(1, 4):
+        toks[-1] = rng.choice(smp)          # ... and at the end of the line
+    return ''.join(toks)
+
+
 def gen_rep(rng):
     toks = []       # (source text before delimiter escaping, kind, value)
     for _ in range(rng.choice([0, 1, 1, 2, 3, 4])):
@@ -367,6 +516,29 @@ def run(ctx):
             if bracket_case:
                 kind += ', bracket expression + referenced groups'
             cases.append({'ic': ic, 'lines': lines, 'cmds': cmds, 'kind': kind, 'corpus': False})
+        # the anchor stream: every (pattern, buffer) is run twice, with and without g
+        for i in range(350 if ctx.quick else 6000):
+            ic = 1 if rng.chance(1, 4) else 0
+            shape, pat, smp, toks = gen_anchor_pattern(rng, ic)
+            nl = rng.choice([1, 1, 1, 2, 3])
+            lines = [gen_anchor_line(rng, smp) for _ in range(nl)]
+            if toks is None:
+                toks = gen_rep(rng) if rng.chance(1, 3) else rng.choice([[('X', 'lit', 'X')], [], [('<', 'lit', '<'), ('\\0', 'grp', 0), ('>', 'lit', '>')],
+                                                                         [('\\1', 'grp', 1), ('_', 'lit', '_')], [('é', 'lit', 'é')]])
+            d = rng.choice(DELIMS)
+            b = rng.range(1, nl)
+            rtxt, rg = rng.choice([('%', (1, nl)), ('%', (1, nl)), ('%d' % b, (b, b)), ('%d,%d' % (b, nl), (b, nl))])
+            again = rng.chance(1, 6)            # a second command that reuses the pattern (and g again or not)
+            g2 = rng.chance(1, 2)
+            toks2 = gen_rep(rng)
+            for g in (True, False):
+                cmds = []
+                body = 's' + d + esc_delim(pat.nv, d) + d + esc_delim(''.join(t[0] for t in toks), d) + d + ('g' if g else '')
+                cmds.append({'range': rg, 'text': rtxt + body, 'body': body, 'pat': pat, 'toks': toks, 'g': g})
+                if again:
+                    body = 's' + d + d + esc_delim(''.join(t[0] for t in toks2), d) + d + ('g' if g2 else '')
+                    cmds.append({'range': (1, nl), 'text': '%' + body, 'body': body, 'pat': None, 'toks': toks2, 'g': g2})
+                cases.append({'ic': ic, 'lines': lines, 'cmds': cmds, 'kind': 'anchor stream', 'corpus': False, 'anchor': shape})
 
     # ---------------------------------------------------------------- implementation
     def script_of(c):
@@ -576,6 +748,18 @@ def run(ctx):
             res.count('replacement references a group')
         if any(ord(ch) > 127 for l in c['lines'] for ch in l):
             res.count('multi-byte line')
+        if c.get('anchor'):
+            cm = c['cmds'][0]
+            res.count('anchor stream, shape %s' % c['anchor'])
+            res.count('anchor stream, %s' % ('with g' if cm['g'] else 'without g'))
+            if cm['g']:
+                rx0 = re.compile(cm['pat'].py)
+                for ln in range(cm['range'][0] - 1, cm['range'][1]):
+                    _, k = py_subst(c['lines'][ln], rx0, rx0, cm['toks'], True, False)
+                    res.count('anchor stream, line with %s matches' % (k if k < 4 else '4 or more'))
+                    m0 = rx0.search(c['lines'][ln])
+                    if m0 and m0.start() == 0 and k >= 2:
+                        res.count('anchor stream, first of several matches at column 0')
         if got_file == variants['ideal']:
             continue
         word = any(p.word for p in pats)
